@@ -426,8 +426,8 @@ theorem mod_kind (as : ASlots) :
        | _ => Kind.float.orInteger) := by
   simp only [declaredFn]
   cases aconst as 1 with
-  | none => split <;> split <;> rfl
-  | some w => cases w <;> split <;> split <;> rfl
+  | none => split <;> rfl
+  | some w => cases w <;> split <;> rfl
 
 theorem mem_floatOrInt {v : Value} (hn : (tagOf v).isNum = true) : mem v Kind.float.orInteger = true := by
   cases v <;> simp [tagOf, Tag.isNum] at hn <;> rfl
